@@ -29,12 +29,12 @@ def main(prop, mk):
         res["compiles"] = rc == 0
         rc, out = sh("go test -count=1 ./... 2>&1 | grep -E '^(FAIL|ok|---)' ", wt, 1500)
         fails = [l for l in out.splitlines() if l.startswith("FAIL") or l.startswith("--- FAIL")]
-        other = [l for l in fails if "examples" not in l and "TestCache" not in l]
+        other = [l for l in fails if "examples" not in l and "TestCache" not in l and l.strip() != "FAIL"]
         res["suite_passes_with_change"] = not other
         res["suite_fail_lines"] = fails[:8]
         if other:   # one retry for timing flakes
             rc, out2 = sh("go test -count=1 ./... 2>&1 | grep -E '^(FAIL|---)' ", wt, 1500)
-            other2 = [l for l in out2.splitlines() if (l.startswith("FAIL") or l.startswith("--- FAIL")) and "examples" not in l and "TestCache" not in l]
+            other2 = [l for l in out2.splitlines() if (l.startswith("FAIL") or l.startswith("--- FAIL")) and "examples" not in l and "TestCache" not in l and l.strip() != "FAIL"]
             res["suite_passes_with_change_retry"] = not other2
         dst = os.path.join(wt, pkg.lstrip("./"), "zz_seed_demo_test.go")
         shutil.copy(src + "/demo_test.go", dst)
